@@ -61,69 +61,83 @@ func backendOf(name string) dnsfix.Backend {
 
 // keyDraws is the number of key draws the HANDLER takes for a slot (measured by
 // a probe query with maxAnswer 1, so that nothing is shuffled) and whether that
-// is the number of rows a fresh reader enumerates. The two differ only when the
-// store enumerates rows differently inside the serve path (a RocksDB reader
-// that returns the rows of another key after a miss): the configuration is
-// then "misaligned": draws can no longer be attributed to candidates, every
-// sequence over the draws actually taken is still enumerated and judged.
+// is the number of rows a fresh reader enumerates for the slot's targets. When
+// the two differ the configuration is "misaligned": draws can no longer be
+// attributed to candidates, but every sequence over the draws actually taken
+// is still enumerated and every response judged. That happens on the unchanged
+// tree where the serve path selects twice for one name (a target named by two
+// records none of whose candidates has a positive weight; a RocksDB reader
+// that returns the rows of another key after a miss) - and it is what a
+// changed tree that draws differently looks like: its responses are judged
+// all the same (never an infrastructure error).
 func (w *world) keyDraws(s slot, cl string) (int, bool) {
 	k := cfgKey{s, cl}
 	if v, ok := w.nk[k]; ok {
 		return v, v == len(w.drawRows(s, cl))
 	}
+	if w.h == nil {
+		vlib.Infra("harness: world %s used after it was closed", setKey(w.set))
+	}
 	src.load(nil)
 	qn, qt := s.query(w.zone)
-	probe := w.h.Serve(query(qn, qt), clientIP[cl], false, 1)
+	w.h.Serve(query(qn, qt), clientIP[cl], false, 1)
 	v := src.taken()
 	if w.nk == nil {
 		w.nk = map[cfgKey]int{}
 	}
 	w.nk[k] = v
-	aligned := v == len(w.drawRows(s, cl))
-	if !aligned && w.backend == dnsfix.CDB && probe.Panicked == nil {
-		vlib.Infra("the handler takes %d key draws where the reader enumerates %d rows (cdb set %s %s client=%q): the scripted source no longer addresses the draws as the code sees them\n%s", v, len(w.drawRows(s, cl)), setKey(w.set), s, cl, w.text)
-	}
-	return v, aligned
+	return v, v == len(w.drawRows(s, cl))
 }
 
 // serve runs one query with the scripted draws (keys in the order the draws
 // are taken, then shuffle draws) and judges the response against the statement.
 func serve(w *world, s slot, cl string, m int, keys, shuffle []uint32) observation {
-	nk, aligned := w.keyDraws(s, cl)
-	if len(keys) != nk && aligned {
-		vlib.Infra("harness: %d key draws scripted for %d taken", len(keys), nk)
+	mm := m
+	if s.Sect != "answer" {
+		mm = 3 // the additional section is limited to one per family whatever the context says
+	}
+	return serveOn(w.h, w, s, cl, mm, keys, shuffle)
+}
+
+// serveOn: the same through a given handler of the world, with maxAnswer mm in the request context.
+func serveOn(h *dnsfix.Handler, w *world, s slot, cl string, mm int, keys, shuffle []uint32) observation {
+	if h == nil {
+		vlib.Infra("harness: world %s used after it was closed", setKey(w.set))
 	}
 	script := make([]uint32, 0, len(keys)+len(shuffle))
 	script = append(script, keys...)
 	script = append(script, shuffle...)
 	src.load(script)
 	qn, qt := s.query(w.zone)
-	mm := m
-	if s.Sect != "answer" {
-		mm = 3 // the additional section is limited to one per family whatever the context says
-	}
-	res := w.h.Serve(query(qn, qt), clientIP[cl], false, mm)
+	res := h.Serve(query(qn, qt), clientIP[cl], false, mm)
 	o := observation{Taken: src.taken()}
-	if aligned && res.Panicked == nil {
-		// the draws the code took must be the ones the script was written for: one key draw per row,
+	if res.Panicked == nil && h == w.h {
+		// the draws the code took should be the ones the script was written for: one key draw per row,
 		// then the shuffle of the kept items (at most one per row, each step taking one draw, or two
 		// when int31n rejects the first). How many items are kept is the code's business (and judged
-		// through the answer), so the bound does not depend on maxAnswer.
-		maxShuffle := 2 * nk
-		if (o.Taken < len(keys) || o.Taken > len(keys)+maxShuffle) && w.backend != dnsfix.CDB {
-			// RocksDB stores: the serve path may select twice for one name (an NS RRset that is duplicated in the
-			// authority section makes the glue selection run again when the first run served nothing): judged as is
-			deviations++
-		} else if o.Taken < len(keys) || o.Taken > len(keys)+maxShuffle {
-			vlib.Infra("the code under test took %d draws where the script provides %d key draws (+ at most %d shuffle draws): the scripted source no longer addresses the draws as the code sees them (%s set %s %s client=%q m=%d)\n%s\n%s",
-				o.Taken, len(keys), maxShuffle, w.backend, setKey(w.set), s, cl, m, dnsfix.CanonResult(res), w.text)
+		// through the answer), so the bound does not depend on maxAnswer. An evaluation outside that
+		// range is judged as it is and counted (0 on the unchanged tree for CDB; RocksDB stores: an NS
+		// RRset duplicated in the authority section makes the glue selection run again when the first
+		// run served nothing).
+		if maxShuffle := 2 * len(keys); o.Taken < len(keys) || o.Taken > len(keys)+maxShuffle {
+			if w.backend == dnsfix.CDB {
+				deviationsCDB++
+			} else {
+				deviations++
+			}
 		}
 	}
-	judge(w, s, cl, m, res, &o)
+	limit := mm
+	if s.Sect != "answer" {
+		limit = 1
+	}
+	judge(w, s, cl, limit, res, &o)
 	return o
 }
 
-func judge(w *world, s slot, cl string, m int, res dnsfix.Result, o *observation) {
+// judge: limit is the statement's maximum per family and name for this request (the configured maximum
+// for the answer section, 1 for the additional section).
+func judge(w *world, s slot, cl string, limit int, res dnsfix.Result, o *observation) {
 	if res.Panicked != nil || len(res.Msgs) != 1 {
 		o.Kinds = append(o.Kinds, "noresponse")
 		o.Canon = dnsfix.CanonResult(res)
@@ -132,31 +146,31 @@ func judge(w *world, s slot, cl string, m int, res dnsfix.Result, o *observation
 	msg := res.Msgs[0]
 	o.msg = msg
 	o.Rcode = dns.RcodeToString[msg.Rcode]
-	limit := m
 	section := msg.Answer
 	if s.Sect != "answer" {
-		limit = 1
 		section = msg.Extra
 	}
-	owner := s.owner(w.zone)
 	var bad [6]bool // foreign, repeat, weight0-served, short, long
 	// declared, visible candidates per family: address -> weight
-	vi := w.visible(s, cl)
-	weight := vi.weight
-	var want, got [2]int
-	for k := range weight {
-		if weight[k] == nil {
-			continue
-		}
-		o.Visible += len(weight[k])
-		o.Positive += vi.pos[k]
-		want[k] = limit
-		if vi.pos[k] < limit {
-			want[k] = vi.pos[k]
-		}
-		o.Want += want[k]
-		if len(weight[k]) > want[k] {
-			o.NonTriv = true
+	vi := w.visible(cl)
+	tgs := s.targets(w.zone)
+	want := make([][2]int, len(tgs))
+	got := make([][2]int, len(tgs))
+	for t, tg := range tgs {
+		for k := range vi.weight {
+			if !tg.fams[k] {
+				continue
+			}
+			o.Visible += len(vi.weight[k])
+			o.Positive += vi.pos[k]
+			want[t][k] = limit
+			if vi.pos[k] < limit {
+				want[t][k] = vi.pos[k]
+			}
+			o.Want += want[t][k]
+			if len(vi.weight[k]) > want[t][k] {
+				o.NonTriv = true
+			}
 		}
 	}
 	seen := map[string]bool{}
@@ -173,33 +187,42 @@ func judge(w *world, s slot, cl string, m int, res dnsfix.Result, o *observation
 		}
 		a := ip.String()
 		o.Addrs = append(o.Addrs, a)
-		if weight[k] == nil || !strings.EqualFold(rr.Header().Name, owner) {
+		t := -1
+		for i, tg := range tgs {
+			if strings.EqualFold(rr.Header().Name, tg.owner) {
+				t = i
+			}
+		}
+		if t < 0 || !tgs[t].fams[k] {
 			bad[0] = true // address record of a family or owner that was not asked for
 			continue
 		}
-		got[k]++
-		wt, declared := weight[k][a]
+		got[t][k]++
+		wt, declared := vi.weight[k][a]
 		if !declared {
 			bad[0] = true // not a declared address of this name visible to this client
 			continue
 		}
-		if seen[a] {
+		if key := fmt.Sprint(t, "|", a); seen[key] {
 			bad[1] = true
+		} else {
+			seen[key] = true
 		}
-		seen[a] = true
 		if wt == 0 && msg.Rcode == dns.RcodeSuccess {
 			bad[2] = true
 		}
 	}
-	for k := range want {
-		if weight[k] == nil {
-			continue
-		}
-		if got[k] < want[k] {
-			bad[3] = true
-		}
-		if got[k] > want[k] {
-			bad[4] = true
+	for t, tg := range tgs {
+		for k := range want[t] {
+			if !tg.fams[k] {
+				continue
+			}
+			if got[t][k] < want[t][k] && s.exact() {
+				bad[3] = true
+			}
+			if got[t][k] > want[t][k] {
+				bad[4] = true
+			}
 		}
 	}
 	for i, name := range []string{"foreign", "repeat", "weight0-served", "count/short", "count/long"} {
@@ -316,8 +339,8 @@ func (o observation) has(kind string) bool {
 
 var failMemo = map[string]bool{}
 
-// evaluations in which the number of draws taken was not the number scripted (never on CDB)
-var deviations int64
+// evaluations in which the number of draws taken was outside the scripted range (RocksDB; CDB: never on the unchanged tree)
+var deviations, deviationsCDB int64
 
 func (c ecase) fails(kind string) bool {
 	k := kind + "|" + c.key()
@@ -344,7 +367,7 @@ func (c ecase) sub(idx []int) ecase {
 func (c ecase) minimise(kind string) ecase {
 	// a case asked of a target that carries both families first shrinks to the
 	// same candidates declared in one family only (its own slot of the data file)
-	if c.Fam == 0 {
+	if c.Fam == 0 && c.Sect != "mxmulti" {
 		for _, f := range []int{4, 6} {
 			if p := c.project(f); p.fails(kind) {
 				return p.minimise(kind)
@@ -399,8 +422,9 @@ func (c ecase) project(f int) ecase {
 // ---- enumeration ----
 
 type e2eStats struct {
-	evals, nontrivial, worlds, failing, shuffleEvals, configs, misaligned int64
-	bySize                                                                [6]int64
+	evals, nontrivial, worlds, failing, shuffleEvals, configs, misaligned, misalignedCDB, reduced int64
+	cacheEvals, cacheSeqs, cacheHits, cacheWorlds                                                 int64
+	bySize                                                                                        [6]int64
 }
 
 type e2ePlan struct {
@@ -411,6 +435,7 @@ type e2ePlan struct {
 	clients []string // client locations
 	addl    bool     // additional-section slots too
 	shuffle bool     // shuffle-draw variation
+	cache   bool     // this unit is the cache-enabled part (cache.go) of the set, not the draw enumeration
 	cost    int64
 }
 
@@ -437,7 +462,14 @@ func emit(r *vlib.Run, mc ecase, kind string, larger string) {
 }
 
 var kindIndex = map[string]uint64{"foreign": 1, "repeat": 2, "weight0-served": 3, "count/short": 4, "count/long": 5, "noresponse": 6}
-var sectIndex = map[string]uint64{"answer": 0, "mx": 1, "ns": 2}
+var sectIndex = map[string]uint8{"answer": 0, "mx": 1, "ns": 2, "mx2": 3, "ns2": 4, "nsself": 5, "https": 6, "https2": 7, "mxmulti": 8}
+
+// memo key of a compact case
+type ckey struct {
+	k    uint64
+	sect uint8
+}
+
 var drawIndex = map[uint32]uint8{0: 1, 1: 2, 1 << 31: 3, 1<<32 - 2: 4, 1<<32 - 1: 5}
 var symIndex = func() map[sym]uint8 {
 	m := map[sym]uint8{}
@@ -464,7 +496,7 @@ type ccase struct {
 	cands   []ccand
 }
 
-func (c ccase) pack(kind string) uint64 {
+func (c ccase) pack(kind string) ckey {
 	codes := make([]int, len(c.cands))
 	for i, x := range c.cands {
 		codes[i] = int(x.sym)<<6 | int(x.d4)<<3 | int(x.d6)
@@ -474,11 +506,15 @@ func (c ccase) pack(kind string) uint64 {
 	if c.cl != "" {
 		clb = 1
 	}
-	k := uint64(c.backend)<<62 | sectIndex[c.sect]<<60 | uint64(c.fam&3)<<58 | uint64(c.fam>>2)<<57 | clb<<56 | uint64(c.m)<<52 | kindIndex[kind]<<49 | uint64(len(codes))<<46
+	si, ok := sectIndex[c.sect]
+	if !ok {
+		vlib.Infra("harness: no index for section shape %q", c.sect)
+	}
+	k := uint64(c.backend)<<62 | uint64(c.fam&3)<<58 | uint64(c.fam>>2)<<57 | clb<<56 | uint64(c.m)<<52 | kindIndex[kind]<<49 | uint64(len(codes))<<46
 	for i, x := range codes {
 		k |= uint64(x) << (9 * uint(i))
 	}
-	return k
+	return ckey{k, si}
 }
 
 func (c ccase) toE() ecase {
@@ -504,7 +540,7 @@ func (c ccase) toE() ecase {
 }
 
 // 1 = fails, 2 = passes
-var cMemo = map[uint64]uint8{}
+var cMemo = map[ckey]uint8{}
 
 func (c ccase) fails(kind string) bool {
 	if len(c.cands) > 5 {
@@ -531,7 +567,7 @@ func (c ccase) with(cands []ccand) ccase {
 // minimise: smallest sub-multiset of the candidates (and, for a both-family
 // target, one family only) that still violates the clause.
 func (c ccase) minimise(kind string) ccase {
-	if c.fam == 0 {
+	if c.fam == 0 && c.sect != "mxmulti" {
 		for _, f := range []int{4, 6} {
 			p := c.with(append([]ccand(nil), c.cands...))
 			p.fam = f
@@ -695,7 +731,7 @@ func report(r *vlib.Run, w *world, s slot, cl string, m int, keys, shuffle []uin
 	}
 }
 
-var reported = map[uint64]bool{}
+var reported = map[ckey]bool{}
 
 func sectName(s slot) string {
 	if s.Sect == "answer" {
@@ -703,6 +739,12 @@ func sectName(s slot) string {
 	}
 	return s.Sect + "-additional"
 }
+
+// a configuration in which the code takes more than maxFullDraws key draws (a target of both families named twice
+// while none of its candidates has a positive weight) is enumerated over the reduced draw alphabet
+const maxFullDraws = 6
+
+var reducedAlphabet = []uint32{0, 1 << 31, 1<<32 - 1}
 
 // enumerate serves, for one slot and client of a world, every maxAnswer in ms
 // and every sequence of key draws over the draw alphabet (shuffle draws
@@ -713,6 +755,10 @@ func enumerate(w *world, s slot, cl string, ms []int, shuffle bool, visit func(m
 	if s.Sect != "answer" {
 		ms = []int{1}
 	}
+	alpha := drawAlphabet
+	if nk > maxFullDraws {
+		alpha = reducedAlphabet
+	}
 	keys := make([]uint32, nk)
 	digits := make([]int, nk)
 	for _, m := range ms {
@@ -721,7 +767,7 @@ func enumerate(w *world, s slot, cl string, ms []int, shuffle bool, visit func(m
 		}
 		for {
 			for i, d := range digits {
-				keys[i] = drawAlphabet[d]
+				keys[i] = alpha[d]
 			}
 			if !visit(m, keys, nil, false, serve(w, s, cl, m, keys, nil)) {
 				return
@@ -729,7 +775,7 @@ func enumerate(w *world, s slot, cl string, ms []int, shuffle bool, visit func(m
 			i := 0
 			for i < nk {
 				digits[i]++
-				if digits[i] < len(drawAlphabet) {
+				if digits[i] < len(alpha) {
 					break
 				}
 				digits[i] = 0
@@ -762,28 +808,45 @@ func enumerate(w *world, s slot, cl string, ms []int, shuffle bool, visit func(m
 	}
 }
 
+// addlSlots lists the additional-section shapes of a world.
+func addlSlots(w *world) []slot {
+	var slots []slot
+	for _, f := range []int{4, 6, 0} {
+		if f == 0 && !w.both {
+			continue
+		}
+		for _, sect := range addlSects {
+			slots = append(slots, slot{sect, f})
+		}
+	}
+	return append(slots, slot{"mxmulti", 0})
+}
+
 // runPlan enumerates every draw sequence for one candidate set.
 func runPlan(r *vlib.Run, p e2ePlan, st *e2eStats) {
 	w := getWorld(p.set, p.backend)
+	w.pins++
+	defer func() { w.pins-- }()
 	st.worlds++
 	var slots []slot
 	for _, f := range p.fams {
 		slots = append(slots, slot{"answer", f})
 	}
 	if p.addl {
-		for _, f := range []int{4, 6, 0} {
-			if f == 0 && !w.both {
-				continue
-			}
-			slots = append(slots, slot{"mx", f}, slot{"ns", f})
-		}
+		slots = append(slots, addlSlots(w)...)
 	}
 	first := true
 	for _, cl := range p.clients {
 		for _, s := range slots {
-			_, aligned := w.keyDraws(s, cl)
+			nk, aligned := w.keyDraws(s, cl)
 			if !aligned {
 				st.misaligned++
+				if w.backend == dnsfix.CDB {
+					st.misalignedCDB++
+				}
+			}
+			if nk > maxFullDraws {
+				st.reduced++
 			}
 			lastM := 0
 			enumerate(w, s, cl, p.ms, p.shuffle, func(m int, keys, shuf []uint32, shuffled bool, o observation) bool {
